@@ -95,6 +95,8 @@ public:
    */
   template<class T> static T logsum(T lnx, T lny)
   {
+    if (lnx == lny)
+      return lnx + std::log(2.); // also covers two log-zeros: (-inf) - (-inf) is not a number
     return (lny < lnx) ?
            lnx + std::log(1. + exp(lny - lnx)) :
            lny + std::log(1. + exp(lnx - lny));
